@@ -111,9 +111,23 @@ def run_case(case: dict) -> list:
             c = h["cmd"]
             r = core.run_reuse(command_line(root, c, rnd))
             post = observe(root)
+            doc = {}
+            if c["kind"] == "spdx" and r["exit"] == 0 and not r["exc"]:
+                cur = None
+                for ln in r["out"].splitlines():
+                    if ln.startswith("FileName: "):
+                        cur = ln[len("FileName: "):]
+                        cur = cur[2:] if cur.startswith("./") else cur
+                        doc[cur] = {"cop": False, "lic": []}
+                    elif cur and ln.startswith("LicenseInfoInFile: ") and ln.split(": ", 1)[1] not in ("NONE", "NOASSERTION"):
+                        doc[cur]["lic"] = sorted(set(doc[cur]["lic"]) | {ln.split(": ", 1)[1]})
+                    elif cur and ln.startswith("FileCopyrightText: "):
+                        doc[cur]["cop"] = ln.split(": ", 1)[1].strip() not in ("NONE", "NOASSERTION", "<text></text>")
+                    elif ln.startswith(("LicenseID:", "Relationship:")) and not ln.startswith("Relationship: SPDXRef-DOCUMENT DESCRIBES"):
+                        cur = None if ln.startswith("LicenseID:") else cur
             crash = r["exc"] or pre.get("failed") or post.get("failed") or ""
             events.append({"tid": case["tid"], "k": k, "label": case["label"], "cmd": c, "pre": pre, "post": post, "exit": r["exit"],
-                           "crash": crash[-300:], "modelExit": h["exit"], "out": (r["out"] + r["err"])[-200:]})
+                           "crash": crash[-300:], "modelExit": h["exit"], "doc": doc, "hasDoc": c["kind"] == "spdx" and r["exit"] == 0, "out": (r["out"] + r["err"])[-200:]})
             pre = post
         return events
     finally:
